@@ -124,6 +124,11 @@ def r18_2(ctx):
     sw, info = sws[0]
     arms, multi = arm_targets(info)
     ctx.floor("R18.2", len(arms), 11)
+    # every diff reaches its arm: no path from entry to return bypasses the dispatch (an early return before the `match`
+    # silently drops a diff, e.g. a shortcut for payloads that look like the target)
+    bypass = [x for x in b.reachable_from(0, avoid_blocks=[sw]) if b.term(x)["k"] == "return"]
+    ctx.verdict(not bypass, "R18.2", f, "dispatch-not-bypassed", b.line_at((sw, 10 ** 6)), "every normal path through apply passes the dispatch on the variant",
+                "apply can return (bb%s) without reaching the dispatch on the variant: on that path the diff is dropped without being applied" % (bypass[0] if bypass else ""))
     for v in VARIANTS:
         if v not in arms:
             ctx.violated("R18.2", f, "arm=" + v, f.loc(), "apply has no explicit arm for %s" % v)
